@@ -100,7 +100,7 @@ def info(tier):
         "point x min/max x tol x 5 methods; linprog statuses 0-4); every OPTIMAL solution's constraints and bounds are "
         "re-evaluated by the reference interpreter; distinct = canonical (problem, method, options | stub script) hashes"
         % len(message_catalogue()),
-        "required_cells": ["A:feasible", "A:infeasible", "A:boundary", "A:lp-feasible", "A:lp-infeasible", "A:deep-constraint", "A:edit-then-resolve", "A:mixed-degree-vector"]
+        "required_cells": ["A:feasible", "A:infeasible", "A:boundary", "A:lp-feasible", "A:lp-infeasible", "A:deep-constraint", "A:edit-then-resolve", "A:mixed-degree-vector", "A:view-order-constraint"]
         + [f"A:method:{m}" for m in sorted(set(NLP_METHODS + LP_METHODS))]
         + [f"B:point:{p}" for p in ("feasible", "violates-le", "violates-ge", "violates-eq", "violates-lb", "violates-ub")]
         + ["B:success:True", "B:success:False", "B:linprog"],
@@ -192,6 +192,35 @@ def deep_constraint_problem(rng):
     return {"decls": decls, "objective": ["dot", d, d], "sense": "min", "constraints": [["rel", s, acc, ["raw", rhs, "float"], "direct"]]}
 
 
+def view_order_problem(rng):
+    """an NLP whose binding constraint is written over a *view* of the vector that holds every problem variable in another
+    order (w @ x[::-1], x[::-1].dot(w), rows of a transposed matrix): element k of the view is not variable k"""
+    n = rng.choice([3, 4, 5])
+    x = ["vec", "x"]
+    decls = [{"k": "vec", "name": "x", "n": n, "lb": -4.0, "ub": 6.0}]
+    w = [round(0.5 + 0.75 * i, 2) for i in range(n)]  # strictly increasing: not a palindrome
+    view = rng.choice([["slice", x, None, None, -1], ["slice", x, n - 1, None, -1]])
+    form = rng.choice(["lc", "lc-rev", "dot-list", "sum-of-products"])
+    if form == "lc":
+        lhs = ["matmul", ["arr", w], view]
+    elif form == "lc-rev":
+        lhs = ["matmul", view, ["arr", w]]
+    elif form == "dot-list":
+        lhs = ["dot", view, ["list", w]]
+    else:
+        lhs = None
+        for i in range(n):
+            t = ["bin", "*", ["raw", w[i], "float"], ["el", view, i]]
+            lhs = t if lhs is None else ["bin", "+", lhs, t]
+    # min |x - t|^2 with t violating the constraint: the optimum is the projection onto w . view(x) <= rhs
+    tgt = [2.0 + 0.5 * i for i in range(n)]
+    d = ["vbin", "-", x, ["arr", tgt]]
+    s = rng.choice(["<=", ">="])
+    rhs = 1.0 if s == "<=" else 60.0
+    obj = ["bin", "+", ["dot", d, d], ["fn", "exp", ["bin", "*", ["raw", 0.1, "float"], ["el", x, 0]]]]
+    return {"decls": decls, "objective": obj, "sense": "min", "constraints": [["rel", s, lhs, ["raw", rhs, "float"], "direct"]]}
+
+
 def mixed_degree_problem(rng):
     """an otherwise linear model with one vector operand whose elements have different degrees (the non-linear one not last)"""
     n = 3
@@ -253,8 +282,13 @@ def workload_a(ctx, rec):
     while n < N_RANDOM[ctx.tier] and not rec.out_of_time():
         n += 1
         k += 1
-        which = k % 8
+        which = k % 9
         lp = False
+        if which == 8:
+            prob = view_order_problem(rng)
+            for m in ("auto", "SLSQP", "trust-constr", "COBYLA"):
+                run_real(rec, rng, prob, "A:view-order-constraint", m, {"maxiter": 300} if m == "trust-constr" else {})
+            continue
         if which == 7:
             prob = mixed_degree_problem(rng)
             for m in ("auto", "linprog", "highs-ds", "SLSQP"):
